@@ -5,6 +5,7 @@
   lines `v2 v3`, `v3 v1`, `v1 v2` of the `sorted_clockwise` triangle.
 -/
 import EG.Lemmas.TriangleOutlineIter
+import EG.Lemmas.TriangleTranslate
 namespace EG
 open Scanline ScanlineIterator
 
@@ -219,6 +220,27 @@ theorem mem_outline_iff (t : Triangle) (c : Nat) (h : t.boundingBox.InRange) (p 
     obtain ⟨piece, hpiece, hc⟩ := ((outlinePend_spec w p.y).2 p.x).mpr hm
     obtain ⟨ey, _⟩ := outlinePend_piece_bounds w p.y hpiece
     exact ⟨p.y, ⟨by omega, by omega⟩, piece, hpiece, ey.symm, hc.1, hc.2⟩
+
+
+theorem mem_line_points_translate (a b d p : Pt) :
+    p + d ∈ Line.points ⟨a + d, b + d⟩ ↔ p ∈ Line.points ⟨a, b⟩ := by
+  have e : Line.points ⟨a + d, b + d⟩ = (Line.points ⟨a, b⟩).map (· + d) :=
+    Line.points_translate ⟨a, b⟩ d
+  rw [e, List.mem_map]
+  constructor
+  · rintro ⟨q, hq, he⟩
+    rw [Pt.add_right_cancel'.mp he] at hq
+    exact hq
+  · intro h; exact ⟨p, h, rfl⟩
+
+/-- The pixel set of the one-pixel outline moves with the triangle. -/
+theorem mem_outline_translate (t : Triangle) (c : Nat) (d p : Pt) (h1 : t.boundingBox.InRange)
+    (h2 : (t.translate d).boundingBox.InRange) :
+    p + d ∈ ((t.translate d).outlinePixels c).map (·.1) ↔ p ∈ (t.outlinePixels c).map (·.1) := by
+  rw [mem_outline_iff _ c h2, mem_outline_iff _ c h1, sortedClockwise_translate]
+  unfold translate
+  dsimp only
+  rw [mem_line_points_translate, mem_line_points_translate, mem_line_points_translate]
 
 end Triangle
 end EG
